@@ -12,7 +12,7 @@ ID = 'C12'
 LEVEL = 'exploration'
 RUNS = {'quick': 16000, 'thorough': 300000}
 CHUNK = 40
-PROBES = ['class_filter', 'subclass_filter', 'class_and_subclass', 'tid_filter', 'tid_and_class', 'empty_lists', 'tuple_filter',
+PROBES = ['boundary_subclass_event_kept', 'class_filter', 'subclass_filter', 'class_and_subclass', 'tid_filter', 'tid_and_class', 'empty_lists', 'tuple_filter',
           'filter_matches_nothing', 'log_listing', 'log_process_filter_by_name', 'log_process_filter_by_pid', 'log_tid_filter',
           'abandoned_listing_before', 'reconfigured_between_requests', 'v3_dump']
 RULE = ('one run = one long-lived PyKdebugParser, a history of 2..7 operations (reconfigure filters, abandoned listing, judged '
@@ -50,6 +50,17 @@ def generate(rng, index, tier):
     dumps = [worlds.gen_dump(rng, version=rng.pick([2, 3, 3]), mix={'bsd': 3, 'path': 2, 'mach': 3, 'tracedom': 2, 'perf': 1,
                                                                       'dyld': 1, 'unknown': 1, 'turnstile': 1},
                              declare_all=False) for _ in range(rng.randint(1, 2))]
+    # records at the edges of the class / subclass id space (subclass 0x00 and 0xff of a class, codes at both ends of
+    # a subclass), of classes that are in use and of their numeric neighbours
+    for d in dumps:
+        used = sorted({r['id'] >> 24 for th in d['threads'] for r in worlds.kernel.expand_threads([th], worlds.catalog()['ids'])[0]}) or [4]
+        for _ in range(rng.randint(0, 4)):
+            c = (rng.pick(used) + rng.pick([0, 0, 0, 1, -1])) & 0xff
+            sub = rng.pick([0x00, 0xff, 0xfe, 0x01, rng.randrange(256)])
+            code = rng.pick([0, 0xfffc, rng.randrange(0, 1 << 14) << 2])
+            th = rng.pick(d['threads'])
+            th['ops'].insert(rng.randrange(len(th['ops']) + 1),
+                             {'k': 'raw', 'id': (c << 24) | (sub << 16) | code, 'q': rng.randrange(4), 'a': rng.words()})
     hist = []
     for _ in range(rng.randint(2, 7)):
         di = rng.randrange(len(dumps))
@@ -177,6 +188,8 @@ def execute(scn):
                 got.append(common.ev_tuple(e))
             if cur.get('cls'):
                 bump('probe:class_filter')
+                if any(((e.eventid >> 16) & 0xff) in (0x00, 0xff) and (e.eventid >> 24) in cur['cls'] for e in ritems):
+                    bump('probe:boundary_subclass_event_kept')
             if cur.get('sub'):
                 bump('probe:subclass_filter')
             if cur.get('cls') and cur.get('sub'):
